@@ -173,6 +173,9 @@ pub enum Kind {
 #[derive(Clone, Debug, Hash)]
 pub struct RespSpec {
     pub kind: Kind,
+    /// upper 8 bits of an extended rcode (0 = plain rcode); only sent when
+    /// the request carried an OPT record
+    pub ext_hi: u8,
     pub tc: bool,
     pub aa: bool,
     pub ad: bool,
@@ -267,6 +270,7 @@ fn ttl_pool(cfg: &Cfg) -> Vec<u32> {
 }
 
 fn decode_spec(u: &mut Unstructured, pool: &[u32]) -> RespSpec {
+    let mut ext_hi = 0u8;
     let kind = match pick(u, 12) {
         0 | 1 => Kind::Positive,
         2 => Kind::NoDataSoa,
@@ -278,7 +282,23 @@ fn decode_spec(u: &mut Unstructured, pool: &[u32]) -> RespSpec {
         8 => Kind::NxNoSoa,
         9 => Kind::NoDataBare,
         10 => Kind::Cname { len: 1 + pick(u, 3) as u8, dangling: flag(u) },
-        _ => Kind::Positive,
+        _ => {
+            // failure signalled with an EXTENDED rcode (upper 8 bits in the
+            // OPT TTL, RFC 6891 §6.1.3) on top of any message shape, so that
+            // every low nibble occurs: 0 with answer records (16 BADVERS, 32,
+            // 4080), 3 (19 BADMODE, 35, 4083), 2/5/1/4/6/9 (18, 21, ...)
+            ext_hi = [1u8, 2, 255, 17][pick(u, 4)];
+            match pick(u, 8) {
+                0 => Kind::Positive,
+                1 => Kind::NxNoSoa,
+                2 => Kind::NxSoa,
+                3 => Kind::Rcode(pick(u, 6) as u8),
+                4 => Kind::NoDataSoa,
+                5 => Kind::Referral,
+                6 => Kind::Cname { len: 1, dangling: false },
+                _ => Kind::Positive,
+            }
+        }
     };
     let f = byte(u);
     let g = byte(u);
@@ -295,6 +315,7 @@ fn decode_spec(u: &mut Unstructured, pool: &[u32]) -> RespSpec {
     let ttl_neg = if same { a0 } else { t(u) };
     RespSpec {
         kind,
+        ext_hi,
         signed: f & 1 != 0,
         ad: f & 2 != 0,
         aa: f & 4 != 0,
